@@ -36,40 +36,51 @@ Section Markers.
   Variable top : vfs * list (list N).
   Variable lower : list (vfs * list (list N)).
 
-  (** while the marker of a path is present, the path is absent from every observation, whatever the
-      layers contain *)
-  Lemma marker_read_path p s s1 :
-    p <> [] -> run h (vp_exists (fst top) (whiteout_path top p)) s = (s1, Ok true) ->
+  (** while the marker of a path is present and the write layer does not hold the path itself, the
+      path is absent from every observation, whatever the lower layers contain (a marker hides the
+      lower layers; an entry of the write layer is newer than a marker) *)
+  Lemma marker_read_path p s s0 s1 :
+    p <> [] ->
+    run h (vp_exists (fst top) (write_path top p)) s = (s0, Ok false) ->
+    run h (vp_exists (fst top) (whiteout_path top p)) s0 = (s1, Ok true) ->
     run h (read_path top lower p) s = (s1, fail ENotFound).
   Proof.
-    intros Hp H. unfold read_path. destruct p as [|x p']; [congruence|].
-    unfold bind_res. rewrite run_bind, H. reflexivity.
+    intros Hp Hu H. unfold read_path. destruct p as [|x p']; [congruence|].
+    unfold bind_res. rewrite run_bind, Hu. rewrite run_bind, H. reflexivity.
   Qed.
 
-  Lemma marker_exists p s s1 :
-    run h (vp_exists (fst top) (whiteout_path top p)) s = (s1, Ok true) ->
+  Lemma marker_exists p s s0 s1 :
+    p <> [] ->
+    run h (vp_exists (fst top) (write_path top p)) s = (s0, Ok false) ->
+    run h (vp_exists (fst top) (whiteout_path top p)) s0 = (s1, Ok true) ->
     run h (ovl_exists top lower p) s = (s1, Ok false).
-  Proof. intros H. unfold ovl_exists, bind_res. rewrite run_bind, H. reflexivity. Qed.
+  Proof. intros Hp Hu H. unfold ovl_exists. rewrite run_bind, (marker_read_path p s s0 s1 Hp Hu H). reflexivity. Qed.
 
-  Lemma marker_metadata p s s1 :
-    p <> [] -> run h (vp_exists (fst top) (whiteout_path top p)) s = (s1, Ok true) ->
+  Lemma marker_metadata p s s0 s1 :
+    p <> [] ->
+    run h (vp_exists (fst top) (write_path top p)) s = (s0, Ok false) ->
+    run h (vp_exists (fst top) (whiteout_path top p)) s0 = (s1, Ok true) ->
     run h (ovl_metadata top lower p) s = (s1, fail ENotFound).
   Proof.
-    intros Hp H. unfold ovl_metadata, bind_res. rewrite run_bind, (marker_read_path p s s1 Hp H). reflexivity.
+    intros Hp Hu H. unfold ovl_metadata, bind_res. rewrite run_bind, (marker_read_path p s s0 s1 Hp Hu H). reflexivity.
   Qed.
 
-  Lemma marker_open_file p s s1 :
-    p <> [] -> run h (vp_exists (fst top) (whiteout_path top p)) s = (s1, Ok true) ->
+  Lemma marker_open_file p s s0 s1 :
+    p <> [] ->
+    run h (vp_exists (fst top) (write_path top p)) s = (s0, Ok false) ->
+    run h (vp_exists (fst top) (whiteout_path top p)) s0 = (s1, Ok true) ->
     run h (ovl_impl top lower (COpenFile p)) s = (s1, fail ENotFound).
   Proof.
-    intros Hp H. cbn [ovl_impl]. unfold bind_res. rewrite run_bind, (marker_read_path p s s1 Hp H). reflexivity.
+    intros Hp Hu H. cbn [ovl_impl]. unfold bind_res. rewrite run_bind, (marker_read_path p s s0 s1 Hp Hu H). reflexivity.
   Qed.
 
-  Lemma marker_read_dir p s s1 :
-    p <> [] -> run h (vp_exists (fst top) (whiteout_path top p)) s = (s1, Ok true) ->
+  Lemma marker_read_dir p s s0 s1 :
+    p <> [] ->
+    run h (vp_exists (fst top) (write_path top p)) s = (s0, Ok false) ->
+    run h (vp_exists (fst top) (whiteout_path top p)) s0 = (s1, Ok true) ->
     run h (ovl_read_dir top lower p) s = (s1, fail ENotFound).
   Proof.
-    intros Hp H. unfold ovl_read_dir, bind_res. rewrite run_bind, (marker_read_path p s s1 Hp H). reflexivity.
+    intros Hp Hu H. unfold ovl_read_dir, bind_res. rewrite run_bind, (marker_read_path p s s0 s1 Hp Hu H). reflexivity.
   Qed.
 End Markers.
 
@@ -143,38 +154,36 @@ Section TwoLayers.
     run bhandler (vp_exists v1 p) (S2 s0 s1) = (S2 s0 s1, Ok (bool_decide (is_Some (s1 !! p)))).
   Proof. reflexivity. Qed.
 
-  (** a path is served from the upper layer if it is there, else from the lower one, unless its
-      marker is present; resolving changes nothing *)
+  (** a path is served from the upper layer if it is there; else, unless its marker is present, from
+      the lower one; resolving changes nothing *)
   Theorem read_path_rule (s0 s1 : mstate) p : p <> [] ->
     run bhandler (read_path top lower p) (S2 s0 s1) =
     (S2 s0 s1,
-     if bool_decide (is_Some (s0 !! whiteout_path top p)) then fail ENotFound
-     else if bool_decide (is_Some (s0 !! p)) then Ok (v0, p)
+     if bool_decide (is_Some (s0 !! p)) then Ok (v0, p)
+     else if bool_decide (is_Some (s0 !! whiteout_path top p)) then fail ENotFound
      else if bool_decide (is_Some (s1 !! p)) then Ok (v1, p)
      else fail ENotFound).
   Proof.
     intros Hp. unfold read_path. destruct p as [|x p']; [congruence|]. set (p := x :: p').
-    unfold bind_res. rewrite run_bind, exists0. cbn [fst].
-    destruct (bool_decide (is_Some (s0 !! whiteout_path top p))); [reflexivity|].
-    rewrite run_bind. cbn [layers first_layer fst snd app]. unfold bind_res.
-    rewrite run_bind, exists0.
+    unfold bind_res, write_path. cbn [fst snd app]. rewrite run_bind, exists0.
     destruct (bool_decide (is_Some (s0 !! p))) eqn:E0; [reflexivity|].
+    rewrite run_bind, exists0.
+    destruct (bool_decide (is_Some (s0 !! whiteout_path top p))); [reflexivity|].
+    rewrite run_bind. cbn [first_layer fst snd app]. unfold bind_res.
     rewrite run_bind, exists1.
-    destruct (bool_decide (is_Some (s1 !! p))) eqn:E1; [reflexivity|].
-    cbn [run]. rewrite run_bind. unfold write_path. cbn [snd app]. rewrite exists0, E0. reflexivity.
+    destruct (bool_decide (is_Some (s1 !! p))) eqn:E1; reflexivity.
   Qed.
 
   Theorem exists_rule (s0 s1 : mstate) p : p <> [] ->
     run bhandler (ovl_exists top lower p) (S2 s0 s1) =
-    (S2 s0 s1, Ok (negb (bool_decide (is_Some (s0 !! whiteout_path top p))) &&
-                   (bool_decide (is_Some (s0 !! p)) || bool_decide (is_Some (s1 !! p))))).
+    (S2 s0 s1, Ok (bool_decide (is_Some (s0 !! p)) ||
+                   (negb (bool_decide (is_Some (s0 !! whiteout_path top p))) && bool_decide (is_Some (s1 !! p))))).
   Proof.
-    intros Hp. unfold ovl_exists, bind_res. rewrite run_bind, exists0. cbn [fst].
-    destruct (bool_decide (is_Some (s0 !! whiteout_path top p))) eqn:Ew; [reflexivity|].
-    rewrite run_bind, (read_path_rule s0 s1 p Hp), Ew.
+    intros Hp. unfold ovl_exists. rewrite run_bind, (read_path_rule s0 s1 p Hp).
     destruct (bool_decide (is_Some (s0 !! p))) eqn:E0.
-    - cbn [fst snd]. rewrite exists0, E0. reflexivity.
-    - destruct (bool_decide (is_Some (s1 !! p))) eqn:E1.
+    - cbn [fst snd orb]. rewrite exists0, E0. reflexivity.
+    - destruct (bool_decide (is_Some (s0 !! whiteout_path top p))) eqn:Ew; [reflexivity|].
+      destruct (bool_decide (is_Some (s1 !! p))) eqn:E1.
       + cbn [fst snd]. rewrite exists1, E1. reflexivity.
       + reflexivity.
   Qed.
